@@ -17,7 +17,7 @@ META = {
     "level": "proof",
     "technique": "Coq proof of the determinism idioms (sort-after-combine, EdgePos order, ReorderHalfedges, heap with serials, unique slots) "
                  "+ source translator checking every combine/atomic/concurrent site + hash exploration across seq/par/sim builds, arenas and seeds",
-    "text": "Proved for all inputs and all schedules (Properties_C04.v, 24 theorems, no axioms): any stable sort of any combinable outcome (arbitrary "
+    "text": "Proved for all inputs and all schedules (Properties_C04.v, 24 theorems, no axioms; the generated table also requires every union-find whose roots reach an output to have its unite calls in a fixed order): any stable sort of any combinable outcome (arbitrary "
             "leaf->worker assignment, leaf order, combine_each order) is one list when the comparator separates the records (Intersect12_: no hypothesis, "
             "payload is a function of (edge,face)); necessity of that hypothesis by a refuted example; EdgePos::operator< strict total order given distinct "
             "collisionIds and canonical buckets for locked runs; ReorderHalfedges erases per-triangle slot rotation (unique-minimum hypothesis, shown necessary); "
@@ -80,6 +80,10 @@ PROGRAMS = [
     ("tp45ks", "tetpairs", 45000, 0, 0, "t", False, "control: same solids with their own copies of the edge vertices (2-manifold)"),
     ("tp90k", "tetpairs", 90000, 1, 0, "t", False, "90000 pairs"),
     ("tp300", "tetpairs", 300, 1, 0, "q", True, "300 pairs: below every threshold"),
+    ("soup64", "soup", 64, 1e-6, 4e-7, "q", True, "MeshGL64::Merge on a 2048-triangle soup (6144 jittered open vertices > kSequentialThreshold 512, clusters of ~6), then Manifold(mesh): mergeFrom/mergeTo and the export"),
+    ("soup128", "soup", 128, 1e-6, 4e-7, "q", True, "same, 8192 triangles / 24576 open vertices"),
+    ("soup16", "soup", 16, 1e-6, 4e-7, "q", True, "same, 384 open vertices (below 512)"),
+    ("soup256", "soup", 256, 1e-6, 4e-7, "t", False, "same, 32768 triangles / 98304 open vertices"),
     ("dedupe", "dedupe", 100, 0, 0, "q", True, "MeshGL import with a 4-manifold edge, 15k halfedges > 1e4: DedupeEdges/SplitPinchedVerts par paths"),
     ("dedupe_s", "dedupe", 32, 0, 0, "q", True, "same below 1e4"),
     ("simplify", "simplify", 100, 23, 0.02, "q", False, "Simplify of a Boolean"),
